@@ -17,6 +17,10 @@ func main() {
 		fmt.Fprintln(os.Stderr, "usage: yvh <property> [flags]")
 		os.Exit(2)
 	}
+	if os.Args[1] == "worker" && len(os.Args) >= 3 {
+		// hidden sub-command: child process evaluating inputs that may crash or hang (core/worker.go)
+		os.Exit(core.RunWorker(os.Args[2]))
+	}
 	prop := strings.ToUpper(os.Args[1])
 	fs := flag.NewFlagSet(prop, flag.ExitOnError)
 	seed := fs.Uint64("seed", 1, "PRNG seed")
